@@ -119,6 +119,7 @@ type Exec struct {
 	entryInf    *entryInfo
 	litParams   map[string]*Cell
 	curHidden   *Cell
+	altName     string
 	lazyCaptures bool
 	boxedPtrs   map[string]PtrVal
 	boxedVals   map[string]Value
@@ -143,6 +144,9 @@ func (e *Exec) funcName() string {
 	n := e.pkg.Types.Name() + "." + funcKey(e.fn)
 	if e.lit != nil {
 		n += fmt.Sprintf("$%d", e.litOrd)
+	}
+	if e.altName != "" {
+		n += "@" + e.altName
 	}
 	return n
 }
@@ -260,6 +264,8 @@ type FuncResult struct {
 type target struct {
 	fn  *types.Func
 	lit int
+	alt *Contract // verify the body against this contract instead (interface contract it implements)
+	altName string
 }
 
 func (prog *Program) verifyFunc(tg target) (res *FuncResult) {
@@ -275,8 +281,20 @@ func (prog *Program) verifyFunc(tg target) (res *FuncResult) {
 		}
 		c, _ = prog.closureContract(lit)
 	}
+	if tg.alt != nil {
+		// the interface contract replaces requires/ensures/modifies; proof hints (loop invariants,
+		// wrap-around declarations, allocation bound, case splits) stay those of the implementation
+		merged := *tg.alt
+		if c != nil {
+			merged.Loops, merged.WrapOK, merged.Alloc, merged.Cases = c.Loops, c.WrapOK, c.Alloc, c.Cases
+			merged.Anys = append(append([]binder{}, merged.Anys...), c.Anys...)
+		}
+		merged.AltPkg = tg.alt.Pkg
+		c = &merged
+	}
 	e := newExec(prog, pk, fn, decl, c)
 	e.lit, e.litOrd = lit, tg.lit
+	e.altName = tg.altName
 	res = &FuncResult{Name: e.funcName()}
 	if c != nil && c.Trusted {
 		res.Trusted = true
@@ -335,6 +353,7 @@ func (e *Exec) run() {
 		c := e.cellFor(v)
 		c.Name = name
 		st.store[c] = e.symbolicValue(st, v.Type(), name)
+		e.assumeTypeInv(st, st.store[c])
 		e.entryInf.vals = append(e.entryInf.vals, entryVal{Name: name, Recv: isRecv, Typ: v.Type(), Val: st.store[c]})
 		return c
 	}
@@ -517,6 +536,9 @@ func (e *Exec) runLit() {
 // funcEnv builds the spec environment of the function under verification in state st.
 func (e *Exec) funcEnv(st, old *State) *SpecEnv {
 	env := &SpecEnv{e: e, st: st, old: old, vars: map[string]Value{}, pkg: e.pkg.Types, what: e.funcName()}
+	if e.contract != nil {
+		env.altPkg = e.contract.AltPkg
+	}
 	for k, v := range e.lets {
 		env.vars[k] = v
 	}
@@ -560,6 +582,7 @@ func (e *Exec) paramNames(sig *types.Signature, c *Contract) map[string]*Cell {
 			n = "recv"
 		}
 		names[n] = e.cellFor(r)
+		names["recv"] = e.cellFor(r)
 	}
 	for i := 0; i < sig.Params().Len(); i++ {
 		p := sig.Params().At(i)
@@ -615,6 +638,14 @@ func (e *Exec) doReturn(st *State, _ []Value, n ast.Node) []Outcome {
 func (e *Exec) checkPost(st *State, n ast.Node) {
 	if e.contract == nil {
 		return
+	}
+	// ghost updates declared by the contract are ghost code executed at return
+	if len(e.contract.Ghosts) > 0 {
+		genv := e.funcEnv(st, e.entry)
+		for _, u := range e.contract.Ghosts {
+			genv.what = e.funcName() + " update " + u.Name
+			st.ghost[u.Name] = specTerm(genv.eval(u.Expr))
+		}
 	}
 	env := e.funcEnv(st, e.entry)
 	// parameters in postconditions denote their values at entry (they may be reassigned in the body)
@@ -673,7 +704,8 @@ func (e *Exec) checkFrame(st *State, n ast.Node) {
 		x := mkVar("x!frame", SInt)
 		conds := []*Term{mkLe(tZero, x), mkLe(x, alloc0)}
 		if kind == "ghost" {
-			conds = nil
+			// ghost maps are keyed by references: entries of objects allocated during the call are free
+			conds = []*Term{mkLe(x, alloc0)}
 		}
 		for _, r := range allowed[id] {
 			conds = append(conds, mkNe(x, r))
